@@ -474,6 +474,10 @@ impl StreamInfo {
         channels: usize,
         bits_per_sample: usize,
     ) -> Result<Self, VerifyError> {
+        // Ranges must be checked before narrowing the values.
+        verify_range!("sample_rate", sample_rate, ..=96_000)?;
+        verify_range!("channels", channels, 1..=MAX_CHANNELS)?;
+        verify_range!("bits_per_sample", bits_per_sample, ..=(u8::MAX as usize))?;
         let ret = Self {
             min_block_size: u16::MAX,
             max_block_size: 0,
